@@ -76,6 +76,7 @@ struct Plan
     int yield_pct = 100;
     int spurious_pm = 0; // per mille
     int time_adv_pct = 20;
+    int clock_yield_pct = 0;
     int stall_tid = -1, stall_from = 0, stall_len = 0;
     std::vector<uint8_t> choices;
     bool strict = false;
